@@ -15,7 +15,7 @@ import (
 func init() {
 	Register(&Family{
 		Name:   "C15.cut",
-		Props:  []string{"C15"},
+		Props:  []string{"C15", "C14"},
 		Weight: 1,
 		Gen: func(g *Gen) *Scn {
 			sc := &Scn{Family: "C15.cut"}
@@ -29,6 +29,11 @@ func init() {
 			sc.SetInt("count", g.Range(2, 4))
 			sc.SetInt("at", g.Range(1, 3)) // unsubscribe while attempt #at is in progress
 			sc.SetInt("delay", g.Intn(2))
+			if sc.Sub == "Retry" && g.Bool(0.5) {
+				// unsubscribe between two attempts, while Retry sleeps its back-off delay
+				sc.SetInt("phase", 1)
+				sc.SetInt("delay", g.Range(2, 4))
+			}
 			return sc
 		},
 		Run: func(e *Env) {
@@ -53,7 +58,11 @@ func init() {
 			o := ro.Catch(func(error) ro.Observable[int] { return loop(s.Obs()) })(trigger.Obs())
 			rec := e.NewRec("o")
 			h := e.Subscribe(o, rec.Observer(), nil)
-			if !e.RunUntil(func() bool { return s.Subs >= at && h.Ret() }, 200) || e.K.Capped() {
+			reached := func() bool { return s.Subs >= at && h.Ret() }
+			if sc.Int("phase", 0) == 1 {
+				reached = func() bool { return s.Subs >= at && s.Live == 0 && h.Ret() } // attempt #at is over: back-off
+			}
+			if !e.RunUntil(reached, 200) || e.K.Capped() {
 				return
 			}
 			if rec.Terminal() != 0 || s.Subs != at {
@@ -73,6 +82,7 @@ func init() {
 			}
 			e.Probe(fmt.Sprintf("c15-cut-done-extra-attempts-%d", s.Subs-cutAt))
 			if s.Subs > cutAt {
+				e.Violate("C14", "attempt-after-unsubscribe:"+sc.Sub, fmt.Sprintf("%s(%d): downstream unsubscribed during attempt #%d; instead of being left alone the source was subscribed %d more time(s)", sc.Sub, count, cutAt, s.Subs-cutAt))
 				e.Violate("C15", "attempt-after-unsubscribe:"+sc.Sub, fmt.Sprintf("%s(%d): the output was unsubscribed while attempt #%d was in progress, yet %d further attempt(s) were started afterwards", sc.Sub, count, cutAt, s.Subs-cutAt))
 			}
 		},
